@@ -167,6 +167,15 @@ def run_shard(spec, tier, scratch):
                 if k > 1 and (n + STATES.index(states[0]) * 5 + STATES.index(states[1])) % 5 and len({r.qname for r in recs}) == 1:
                     continue
                 judge(res, scratch, recs, states, header=(n % 2 == 0))
+    if spec["shard"] == 2 % spec["of"]:
+        # every file of three records over a reduced alphabet (two records per read), under every TSV: orders such as
+        # "read, other read, same read again" with the other read phased, unphased or not listed at all
+        sub = [A[0], A[5], A[len(A) // 2], A[len(A) // 2 + 7]]
+        for seq in itertools.product(sub, repeat=3):
+            for states in itertools.product(STATES, repeat=2):
+                for header in (False, True):
+                    judge(res, scratch, list(seq), states, header)
+                    res.count("three_record_files")
     if spec["shard"] == 1 % spec["of"]:
         # one deliberately large file (beyond any plausible batching threshold)
         big = [A[(i * 7) % len(A)] for i in range(2503)]
